@@ -18,6 +18,20 @@ func (e *Eval) safetyOb(fr *Frame, in ssa.Instruction, kind, cur, goal string) {
 	e.oblige(name, "safety", e.safety, cur, goal, kind, e.p.prog.Fset.Position(in.Pos()).String())
 }
 
+// blockingOb: a goroutine that blocks on a channel while holding a mutex
+// stalls every other goroutine that needs the mutex (and deadlocks when the
+// wake-up needs it): no mutex may be held at a blocking channel operation.
+func (e *Eval) blockingOb(fr *Frame, in ssa.Instruction, kind string, st *State, cur string) {
+	if len(e.blocking) == 0 {
+		return
+	}
+	e.declHeld()
+	sk := e.c.Fresh("sk.blk", "MuId")
+	goal := eq(sel(e.c.Get(st, "$held"), sk), "0")
+	name := fmt.Sprintf("blocking#%s/no-mutex-held-while-blocking", e.site(kind+"@"+shortFn(fr.fn)))
+	e.oblige(name, "blocking", e.blocking, cur, goal, "no mutex held at blocking "+kind, e.p.prog.Fset.Position(in.Pos()).String())
+}
+
 func shortFn(fn *ssa.Function) string { return relName(fn) }
 
 // instr executes one instruction; returns the new reach, state and whether
@@ -130,6 +144,7 @@ func (e *Eval) instr(fr *Frame, in ssa.Instruction, st *State, cur string) (stri
 			fr.vals[x] = Val{T: "(bvnot " + v.T + ")"}
 		case token.ARROW:
 			// channel receive: opaque value
+			e.blockingOb(fr, in, "chan-recv", st, cur)
 			e.ghostEvent(st, "recv", v.T)
 			fr.vals[x] = e.havocVal(fr.prefix+x.Name(), x.Type(), cur)
 		default:
@@ -382,8 +397,12 @@ func (e *Eval) instr(fr *Frame, in ssa.Instruction, st *State, cur string) (stri
 		// edges handled by caller
 	case *ssa.Send:
 		ch := e.val(fr, x.Chan)
+		e.blockingOb(fr, in, "chan-send", st, cur)
 		e.ghostEvent(st, "send", ch.T)
 	case *ssa.Select:
+		if x.Blocking {
+			e.blockingOb(fr, in, "select", st, cur)
+		}
 		for _, s := range x.States {
 			ch := e.val(fr, s.Chan)
 			_ = ch
